@@ -221,10 +221,12 @@ def inputs(tier):
     I.append({
         "name": "mixed-language",
         "files": {"shared.h": banner + "#ifdef SOLVER\n      x = 1\n#endif\n#define SHARED 1\n", "k.c": '#include "shared.h"\nint k;\n',
-                  "f.F90": '#include "shared.h"\n      y = 2 ! c\n', "u.c": "int u;\n"},
-        "links": {},
+                  "f.F90": '#include "shared.h"\n      y = 2 ! c\n', "u.c": "int u;\n", "k/Vadd.c": "int v1;\n", "k/vadd.c": "int v2;\n", "k/VADD.c": "int v1;\n"},
+        # a link whose extension belongs to another language family than its target
+        "links": {"alias.F90": "shared.h"},
         "platforms": {"host": [{"file": "k.c", "args": []}], "solver": [{"file": "f.F90", "compiler": "gfortran", "args": ["-DSOLVER"]}],
-                      "hybrid": [{"file": "f.F90", "compiler": "gfortran", "args": []}, {"file": "k.c", "args": []}, {"file": "u.c", "args": []}]},
+                      "hybrid": [{"file": "f.F90", "compiler": "gfortran", "args": []}, {"file": "k.c", "args": []}, {"file": "u.c", "args": []}, {"file": "k/Vadd.c", "args": []}],
+                      "lower": [{"file": "k/vadd.c", "args": []}]},
     })
     if tier == "thorough":
         I.append({
